@@ -23,6 +23,20 @@ Lemma ns_zero_children t cs : plain (Node t cs) = true -> ns_count (Node t cs) =
   Forall (fun c => ns_count c = 0) cs.
 Proof. intros P H. unfold ns_count in H. rewrite ns_node_nostop in H by exact P. apply ns_list_zero. exact H. Qed.
 
+Lemma ns_zero_not_ns n : ns_count n = 0 -> is_ns_ident n = false.
+Proof.
+  intros Z. destruct (is_ns_ident n) eqn:E; [|reflexivity]. exfalso.
+  destruct n as [[k lo hi| | | | | |] cs]; try discriminate E. destruct k; try discriminate E.
+  unfold ns_count in Z. cbn [meas is_ident is_kind kind_of kind_eqb] in Z.
+  destruct (kind_eq_dec KIdent KIdent) as [_|X]; [|contradiction]. rewrite E in Z. discriminate Z.
+Qed.
+
+Lemma ns_zero_member lo hi obj rest : ns_count (Node (K KMember lo hi) (obj :: rest)) = 0 -> is_ns_ident obj = false.
+Proof.
+  intros Z. unfold ns_count in Z. rewrite ns_node_nostop in Z by reflexivity.
+  rewrite ns_list_cons in Z. apply ns_zero_not_ns. unfold ns_count. lia.
+Qed.
+
 Definition good (n : node) : Prop := wf_all n = true /\ ns_count n = 0.
 
 Lemma good_children t cs : plain (Node t cs) = true -> good (Node t cs) -> Forall good cs.
@@ -81,6 +95,9 @@ Section Generic.
   Local Notation mul := (meas_list stop kappa).
   Hypothesis mu_good : forall n, good n -> mu n = 0.
   Hypothesis mu_arrow : forall n, good n -> mu (arrow_transform n) = 0.
+  (** The names a hook callee may be built with, and the weight of such a callee (P_Count.v). *)
+  Variable okname : string -> Prop.
+  Hypothesis mu_callee : forall name span, okname name -> mu (dd_callee name span) = kappa.
 
 Lemma hoist_key_clean c prop prop1 span a p prop' a' p' :
   (leaf prop = true /\ prop1 = prop) \/
@@ -157,16 +174,17 @@ Section Visit.
 
   (** What [hoist_member] leaves of a visited member-like target carries no reference. *)
   Lemma hoist_member_clean fuel root t s t1 s1 span a p t' a' p' :
-    op_visit c fuel root t s = Some (t1, s1) -> member_like_ok t = true -> mu t = 0 ->
+    op_visit c fuel root t s = Some (t1, s1) -> member_like_ok t = true -> ns_count t = 0 -> mu t = 0 ->
     hoist_member c t1 span a p = Some (t', a', p') -> mu t' = 0.
   Proof.
-    intros H M Z. unfold member_like_ok in M.
+    intros H M NZ Z. unfold member_like_ok in M.
     destruct t as [[k lo hi| | | | | |] cs]; try discriminate. destruct k; try discriminate.
     - (* member *)
       destruct cs as [|obj [|prop [|? ?]]]; try discriminate.
       destruct fuel as [|f]; [discriminate|]. apply visit_member in H.
       destruct H as (obj1 & prop1 & s2 & -> & Ho & Hp).
-      rewrite (ns_node (K KMember lo hi)) in Z by reflexivity. cbn [mul fold_right] in Z.
+      pose proof (ns_zero_member _ _ _ _ NZ) as NO.
+      rewrite (ns_node (K KMember lo hi)) in Z; [|reflexivity|cbn; exact NO]. cbn [mul fold_right] in Z.
       pose proof (visit_prop _ _ _ _ _ _ Hp M ltac:(lia)) as VP.
       unfold hoist_member.
       destruct (if is_ident obj1 || is_kind KThis obj1 then (obj1, a, p)
@@ -174,20 +192,23 @@ Section Visit.
                      (match id with Some i => i | None => obj1 end, a1, p1)) as [[obj2 a1] p1] eqn:E1.
       destruct (hoist_key c prop1 span a1 p1) as [[prop2 a2] p2] eqn:E2.
       intros X; inversion X; subst.
-      rewrite (ns_node (K KMember lo hi)) by reflexivity. cbn [mul fold_right].
-      rewrite (hoist_key_clean _ _ _ _ _ _ _ _ _ VP E2).
-      assert (O : mu obj2 = 0).
+      assert (O : mu obj2 = 0 /\ is_ns_ident obj2 = false).
       { destruct (is_ident obj1) eqn:I.
-        - simpl in E1. inversion E1; subst. rewrite (op_visit_ident_fix _ _ _ _ _ _ _ Ho I). lia.
+        - simpl in E1. inversion E1; subst. rewrite (op_visit_ident_fix _ _ _ _ _ _ _ Ho I). split; [lia | exact NO].
         - simpl in E1. destruct (is_kind KThis obj1) eqn:T.
-          + inversion E1; subst. apply ns_leaf. unfold is_kind in T.
+          + inversion E1; subst. unfold is_kind in T.
             destruct obj2 as [[k2 l2 h2| | | | | |] ocs]; try discriminate T. simpl in T.
-            unfold kind_eqb in T. destruct (kind_eq_dec KThis k2); [subst; reflexivity | discriminate].
+            unfold kind_eqb in T. destruct (kind_eq_dec KThis k2); [subst | discriminate].
+            split; [apply ns_leaf; reflexivity | reflexivity].
           + destruct (get_temporal c obj1 span IKExpr a p) as [[id a3] p3] eqn:G. inversion E1; subst.
+            split; [|eapply get_temporal_not_ns; exact G].
             pose proof G as G0. apply (get_temporal_ns (stop:=stop) (kappa:=kappa)) in G. destruct G as [_ Y].
             destruct id as [i|]; [apply Y; discriminate|].
             unfold get_temporal in G0. destruct (is_lit obj1) eqn:L; [apply ns_lit; exact L|].
             unfold next_ident in G0. cbn [fst snd] in G0. inversion G0. }
+      destruct O as [O N2].
+      rewrite (ns_node (K KMember lo hi)); [|reflexivity|cbn; exact N2]. cbn [mul fold_right].
+      rewrite (hoist_key_clean _ _ _ _ _ _ _ _ _ VP E2).
       lia.
     - (* super property *)
       destruct cs as [|obj [|prop [|? ?]]]; try discriminate.
@@ -209,7 +230,7 @@ Section Targets.
 
   (** For every admissible target [x]: after the visit, what hoisting leaves to be written twice has
       no reference (a member-like target: its hoisted form; otherwise the whole visited target). *)
-  Lemma target_clean : forall x, target_ok x = true -> mu x = 0 ->
+  Lemma target_clean : forall x, target_ok x = true -> ns_count x = 0 -> mu x = 0 ->
     forall fuel root s x1 s1, op_visit c fuel root x s = Some (x1, s1) ->
     forall span a p,
       match hoist_member c (peel_parens x1) span a p with
@@ -217,14 +238,14 @@ Section Targets.
       | None => mu x1 = 0
       end.
   Proof.
-    apply (node_ind' (fun x => target_ok x = true -> mu x = 0 ->
+    apply (node_ind' (fun x => target_ok x = true -> ns_count x = 0 -> mu x = 0 ->
       forall fuel root s x1 s1, op_visit c fuel root x s = Some (x1, s1) ->
       forall span a p,
         match hoist_member c (peel_parens x1) span a p with
         | Some (t', _, _) => mu t' = 0
         | None => mu x1 = 0
         end)).
-    intros t cs IH T Z fuel root s x1 s1 H span a p.
+    intros t cs IH T NZ Z fuel root s x1 s1 H span a p.
     cbn [target_ok] in T. apply orb_true_iff in T. destruct T as [T|T]; [apply orb_true_iff in T; destruct T as [T|T]|].
     - (* identifier *)
       assert (x1 = Node t cs).
@@ -243,7 +264,7 @@ Section Targets.
           apply visit_superprop in H. destruct H as (? & ? & ? & -> & _). reflexivity. }
       rewrite (peel_not_paren _ NP).
       destruct (hoist_member c x1 span a p) as [[[t' a'] p']|] eqn:E.
-      + eapply hoist_member_clean; [exact H | exact T | exact Z | exact E].
+      + eapply hoist_member_clean; [exact H | exact T | exact NZ | exact Z | exact E].
       + (* cannot happen for a member-like node, but the statement is easy: the visited node has the same references *)
         unfold member_like_ok in T. destruct t as [k lo hi| | | | | |]; try discriminate T.
         destruct k; try discriminate T.
@@ -261,7 +282,8 @@ Section Targets.
       apply visit_single in H; [|left; reflexivity]. destruct H as (e1 & -> & He).
       inversion IH as [|? ? IHe _]; subst.
       rewrite (ns_node (K KParen lo hi)) in Z by reflexivity. cbn [mul fold_right] in Z.
-      specialize (IHe T ltac:(lia) _ _ _ _ _ He span a p).
+      unfold ns_count in NZ. rewrite ns_node_nostop in NZ by reflexivity. cbn [meas_list fold_right] in NZ.
+      specialize (IHe T ltac:(unfold ns_count; lia) ltac:(lia) _ _ _ _ _ He span a p).
       cbn [peel_parens].
       destruct (hoist_member c (peel_parens e1) span a p) as [[[t' a'] p']|]; [exact IHe|].
       rewrite (ns_node (K KParen lo hi)) by reflexivity. cbn [mul fold_right]. lia.
@@ -271,14 +293,47 @@ Section Targets.
   Proof. destruct (is_kind KParen x) eqn:E; [reflexivity | symmetry; apply peel_not_paren; exact E]. Qed.
 
   Corollary hoist_target_clean x fuel root s x1 s1 span p lhs' hoisted p0 :
-    target_ok x = true -> mu x = 0 -> op_visit c fuel root x s = Some (x1, s1) ->
+    target_ok x = true -> ns_count x = 0 -> mu x = 0 -> op_visit c fuel root x s = Some (x1, s1) ->
     hoist_target c x1 span acc0 p = (lhs', hoisted, p0) -> mu lhs' = 0.
   Proof.
-    intros T Z H. unfold hoist_target. rewrite peel_of_inner.
-    pose proof (target_clean x T Z _ _ _ _ _ H span acc0 p) as Q.
+    intros T NZ Z H. unfold hoist_target. rewrite peel_of_inner.
+    pose proof (target_clean x T NZ Z _ _ _ _ _ H span acc0 p) as Q.
     destruct (hoist_member c (peel_parens x1) span acc0 p) as [[[t' a'] p']|].
     - intros X; inversion X; subst. exact Q.
     - intros X; inversion X; subst. exact Q.
+  Qed.
+
+  (** The visited target is not a member on the hook namespace. *)
+  Lemma target_not_ns_member : forall x, target_ok x = true -> ns_count x = 0 ->
+    forall fuel root s x1 s1, op_visit c fuel root x s = Some (x1, s1) ->
+    is_ns_member (peel_parens x1) = false.
+  Proof.
+    apply (node_ind' (fun x => target_ok x = true -> ns_count x = 0 ->
+      forall fuel root s x1 s1, op_visit c fuel root x s = Some (x1, s1) ->
+      is_ns_member (peel_parens x1) = false)).
+    intros t cs IH T NZ fuel root s x1 s1 H.
+    cbn [target_ok] in T. apply orb_true_iff in T. destruct T as [T|T]; [apply orb_true_iff in T; destruct T as [T|T]|].
+    - assert (x1 = Node t cs).
+      { destruct fuel as [|f]; [discriminate|]. cbn [op_visit] in H. rewrite (classify_ident _ T) in H. inversion H; reflexivity. }
+      subst x1. destruct t as [k lo hi| | | | | |]; try discriminate T. destruct k; try discriminate T. reflexivity.
+    - unfold member_like_ok in T. destruct t as [k lo hi| | | | | |]; try discriminate T.
+      destruct k; try discriminate T.
+      + destruct cs as [|o [|pr [|? ?]]]; try discriminate T. destruct fuel as [|f]; [discriminate|].
+        apply visit_member in H. destruct H as (o1 & p1 & s2 & -> & Ho & _). cbn.
+        destruct (is_ns_ident o1) eqn:E; [|reflexivity].
+        assert (I : is_ident o1 = true).
+        { destruct o1 as [[k2 l2 h2| | | | | |] ocs]; try discriminate E. destruct k2; try discriminate E. reflexivity. }
+        rewrite (op_visit_ident_fix _ _ _ _ _ _ _ Ho I) in E.
+        rewrite (ns_zero_member _ _ _ _ NZ) in E. discriminate E.
+      + destruct cs as [|o [|pr [|? ?]]]; try discriminate T. destruct fuel as [|f]; [discriminate|].
+        apply visit_superprop in H. destruct H as (o1 & p1 & s2 & -> & _). reflexivity.
+    - destruct t as [k lo hi| | | | | |]; try discriminate T. destruct k; try discriminate T.
+      destruct cs as [|e [|? ?]]; try discriminate T.
+      destruct fuel as [|f]; [discriminate|].
+      apply visit_single in H; [|left; reflexivity]. destruct H as (e1 & -> & He).
+      inversion IH as [|? ? IHe _]; subst.
+      unfold ns_count in NZ. rewrite ns_node_nostop in NZ by reflexivity. cbn [meas_list fold_right] in NZ.
+      cbn [peel_parens]. eapply IHe; [exact T | unfold ns_count; lia | exact He].
   Qed.
 End Targets.
 
@@ -303,7 +358,10 @@ Qed.
 (** ** The operation visitor *)
 Section OpLevel.
   Variable c : config.
-  Hypothesis Hv : c_verbosity c <> VOff.
+  Hypothesis Hv : kappa = 0 \/ c_verbosity c <> VOff.     (* a weightless reference does not need the count *)
+  Hypothesis Hok_plus : plus_enabled c = true -> okname (plus_name c).
+  Hypothesis Hok_tpl : tpl_enabled c = true -> okname (tpl_name c).
+  Hypothesis Hok_csi : forall name m, csi_get c name = Some m -> okname (m_dst m).
 
   Definition live (s : ostate) : Prop := t_status (o_t s) <> Cancelled.
   Definition cnt (s : ostate) : N := t_count (o_t s).
@@ -311,12 +369,15 @@ Section OpLevel.
     (N.of_nat (mu n') + N.of_nat kappa * cnt s = N.of_nat kappa * cnt s')%N /\ live s'.
 
   Lemma o_update_modified tag s : live s ->
-    live (o_update c Modified tag s) /\ cnt (o_update c Modified tag s) = N.succ (cnt s).
+    live (o_update c Modified tag s) /\
+    (N.of_nat kappa * cnt (o_update c Modified tag s) = N.of_nat kappa * cnt s + N.of_nat kappa)%N.
   Proof.
     unfold live, cnt, o_update. cbn [o_t]. intros L.
     pose proof (update_status_modified (c_verbosity c) tag (o_t s) L) as U. cbv zeta in U.
     destruct U as (U1 & U2 & _). split; [rewrite U1; discriminate|].
-    rewrite U2. destruct (c_verbosity c); try reflexivity. contradiction Hv; reflexivity.
+    rewrite U2. destruct Hv as [K0 | Hv'].
+    - rewrite K0. change (N.of_nat 0) with 0%N. rewrite !N.mul_0_l. reflexivity.
+    - destruct (c_verbosity c); try (rewrite N.mul_succ_r; reflexivity). contradiction Hv'; reflexivity.
   Qed.
 
   Lemma o_update_notmodified tag s : o_t (o_update c NotModified tag s) = o_t s.
@@ -328,6 +389,7 @@ Section OpLevel.
     forall s l' s', map_st f l s = Some (l', s') -> Forall good l -> live s ->
       (N.of_nat (mul l') + N.of_nat kappa * cnt s = N.of_nat kappa * cnt s')%N /\ live s'.
   Proof.
+    clear Hv.
     induction l as [|x r IH]; intros Hf s l' s' H G L; simpl in H.
     - inversion H; subst. split; [simpl; lia | exact L].
     - destruct (f x s) as [[x1 s1]|] eqn:E; [|discriminate].
@@ -349,6 +411,83 @@ Section OpLevel.
     - intros Lf. eapply op_visit_leaf in E; [tauto | exact Lf].
   Qed.
 
+  Lemma ns_ident_is_ident n : is_ns_ident n = true -> is_ident n = true.
+  Proof.
+    destruct n as [[k lo hi| | | | | |] cs]; try discriminate. destruct k; try discriminate. reflexivity.
+  Qed.
+
+  (** Visited children keep the node out of the stops: a namespace identifier cannot appear as the object. *)
+  Lemma stop_kind_visit t cs cs' :
+    Forall2 (fun x x' => (is_ident x' = true -> x' = x) /\ (leaf x = true -> x' = x)) cs cs' ->
+    stop_kind (Node t cs) = false -> stop_kind (Node t cs') = false.
+  Proof.
+    intros F NB. unfold stop_kind in *. apply orb_false_iff in NB. destruct NB as [NB NM].
+    apply orb_false_iff. split; [exact NB|].
+    destruct t as [k lo hi| | | | | |]; try reflexivity. destruct k; try reflexivity.
+    inversion F as [|x x' r r' [FX _] _]; subst; [reflexivity|]. cbn in *.
+    destruct (is_ns_ident x') eqn:E; [|reflexivity].
+    rewrite (FX (ns_ident_is_ident _ E)) in E. congruence.
+  Qed.
+
+  Lemma visit_not_ns_member fuel root n s n1 s1 :
+    op_visit c fuel root n s = Some (n1, s1) -> good n -> is_ns_member n1 = false.
+  Proof.
+    intros H [W NZ]. destruct (is_ns_member n1) eqn:E; [|reflexivity]. exfalso.
+    assert (K1 : is_kind KMember n1 = true).
+    { destruct n1 as [[k lo hi| | | | | |] cs1]; try discriminate E. destruct k; try discriminate E. reflexivity. }
+    assert (NK : forall kk, kind_of n = Some kk -> kk <> KMember -> is_kind KMember n = false).
+    { intros kk E1 E2. rewrite (is_kind_of _ _ _ E1). apply kind_eqb_neq. congruence. }
+    assert (SAME : n1 = n -> False).
+    { intros ->. destruct n as [[k lo hi| | | | | |] cs]; try discriminate E. destruct k; try discriminate E.
+      destruct cs as [|obj rest]; [discriminate E|]. cbn in E. rewrite (ns_zero_member _ _ _ _ NZ) in E. discriminate E. }
+    destruct fuel as [|f]; [discriminate|].
+    assert (D : forall r x sx x' sx', default_visit_with (op_visit c f r) x sx = Some (x', sx') ->
+                                      is_kind KMember x' = is_kind KMember x).
+    { intros r x sx x' sx' E0. apply is_kind_tag. eapply default_visit_tag; exact E0. }
+    cbn [op_visit] in H. pose proof (classify_kind n) as CK. destruct (classify n) eqn:Cl.
+    - inversion H; subst. exact (SAME eq_refl).
+    - inversion H; subst. exact (SAME eq_refl).
+    - assert (X0 : is_kind KMember n = false) by (apply (NK _ CK); discriminate).
+      destruct (plus_enabled c); [|apply D in H; congruence].
+      destruct (default_visit_with (op_visit c f false) n s) as [[nx sx]|] eqn:E1; [|discriminate].
+      inversion H; subst. apply D in E1.
+      destruct (bin_step_neutral c KMember eq_refl nx sx) as [X|X]; congruence.
+    - assert (X0 : is_kind KMember n = false) by (apply (NK _ CK); discriminate).
+      destruct (plus_enabled c); [|apply D in H; congruence].
+      destruct (default_visit_with (op_visit c f false) n s) as [[nx sx]|] eqn:E1; [|discriminate].
+      inversion H; subst. apply D in E1.
+      destruct (assign_step_neutral c KMember eq_refl nx sx) as [X|X]; congruence.
+    - assert (X0 : is_kind KMember n = false) by (apply (NK _ CK); discriminate).
+      destruct (tpl_enabled c); [|apply D in H; congruence].
+      destruct (tpl_instrumentable n); [|inversion H; subst; exact (SAME eq_refl)].
+      destruct (default_visit_with (op_visit c f false) n s) as [[nx sx]|] eqn:E1; [|discriminate].
+      inversion H; subst. apply D in E1.
+      destruct (tpl_step_neutral c KMember eq_refl nx sx) as [X|X]; congruence.
+    - assert (X0 : is_kind KMember n = false) by (apply (NK _ CK); discriminate).
+      destruct (default_visit_with (op_visit c f false) n s) as [[nx sx]|] eqn:E1; [|discriminate].
+      inversion H; subst. apply D in E1.
+      destruct (call_step_neutral c KMember eq_refl nx sx) as [X|X]; congruence.
+    - (* optional chain: outside the fragment *)
+      destruct n as [[k lo hi| | | | | |] cs]; try discriminate CK. inversion CK; subst k.
+      apply wf_all_children in W. destruct W as [W _]. discriminate W.
+    - assert (X0 : is_kind KMember n = false) by (apply (NK _ CK); discriminate).
+      destruct (is_op unary_op "delete" n); [inversion H; subst; exact (SAME eq_refl) | apply D in H; congruence].
+    - assert (X0 : is_kind KMember n = false) by (apply (NK _ CK); discriminate).
+      inversion H; subst. unfold arrow_transform in K1.
+      destruct n as [[kk lo hi| | | | | |] cs]; try discriminate CK. inversion CK; subst kk.
+      destruct cs as [|cx [|params [|body [|asy [|gen [|tp [|rt [|? ?]]]]]]]]; try discriminate K1.
+      destruct (is_kind KBlock body); discriminate K1.
+    - inversion H; subst. exact (SAME eq_refl).
+    - (* default traversal: a member stays a member over visited children *)
+      pose proof (D _ _ _ _ _ H) as KN. rewrite K1 in KN. symmetry in KN.
+      destruct n as [[k lo hi| | | | | |] cs]; try discriminate KN.
+      unfold is_kind in KN. simpl in KN. unfold kind_eqb in KN. destruct (kind_eq_dec KMember k); [subst k | discriminate KN].
+      simpl in H. destruct (map_st (op_visit c f root) cs s) as [[cs1 sy]|] eqn:M; [|discriminate]. inversion H; subst n1 sy.
+      pose proof (map_st_ident_fix _ _ _ _ _ _ M) as F.
+      inversion F as [|x x' r r' [FX _] _]; subst; [discriminate E|]. cbn in E.
+      rewrite (FX (ns_ident_is_ident _ E)) in E. rewrite (ns_zero_member _ _ _ _ NZ) in E. discriminate E.
+  Qed.
+
   Theorem op_visit_count : forall fuel root n s n' s',
     op_visit c fuel root n s = Some (n', s') -> good n -> live s -> post n' s s'.
   Proof.
@@ -360,13 +499,14 @@ Section OpLevel.
                post (Node t cs') s0 s0').
     { intros r t cs s0 cs' s0' P NB E G0 L0.
       destruct (map_st_count (op_visit c f r) cs (fun x _ => IH r x) _ _ _ E (good_children _ _ P G0) L0) as [A B].
-      split; [|exact B]. rewrite ns_node; [exact A | exact P | exact NB]. }
+      split; [|exact B]. rewrite ns_node; [exact A | exact P |].
+      eapply stop_kind_visit; [eapply map_st_ident_fix; exact E | exact NB]. }
     cbn [op_visit] in H. pose proof (classify_kind n) as CK. destruct (classify n) eqn:Cl.
     - (* block *) inversion H; subst. split; [rewrite (mu_good _ G); simpl; lia | exact L].
     - (* identifier *) inversion H; subst. split; [rewrite (mu_good _ G); unfold cnt; simpl; lia | exact L].
     - (* + *)
       destruct n as [[k lo hi| | | | | |] cs]; try discriminate CK. inversion CK; subst k. clear CK.
-      destruct (plus_enabled c).
+      destruct (plus_enabled c) eqn:PE.
       + destruct (default_visit_with (op_visit c f false) (Node (K KBin lo hi) cs) s) as [[n1 s1]|] eqn:E; [|discriminate].
         simpl in E. destruct (map_st (op_visit c f false) cs s) as [[cs1 sy]|] eqn:M; [|discriminate].
         inversion E; subst n1 sy. clear E.
@@ -377,7 +517,7 @@ Section OpLevel.
         destruct (binary_transform c (Node (K KBin lo hi) cs1) (o_p s1)) as [[e'|] p2] eqn:B.
         * cbn [fst snd].
           destruct (o_update_modified (Some gen_ADD_TAG) (o_with_p p2 s1) L1) as [L2 C2].
-          split; [|exact L2]. unfold cnt in *. rewrite C2, N.mul_succ_r. cbn [o_with_p o_t].
+          split; [|exact L2]. unfold cnt in *. rewrite C2. cbn [o_with_p o_t].
           (* shape of the visited children and cleanliness of kept identifiers *)
           pose proof (map_st_ident_fix _ _ _ _ _ _ M) as F2.
           pose proof (good_children (K KBin lo hi) cs eq_refl G) as GC.
@@ -386,7 +526,7 @@ Section OpLevel.
           inversion F4 as [|r0 ? ? ? Fr F5]; subst. inversion F5; subst.
           inversion GC as [|? ? _ GC2]; subst. inversion GC2 as [|? ? Gl GC3]; subst. inversion GC3 as [|? ? Gr _]; subst.
           fold (binary_transform c (Node (K KBin lo hi) [opn1; l1; r1]) (o_p s1)) in B.
-          apply (binary_transform_ns (stop:=stop) (kappa:=kappa)) in B.
+          apply (binary_transform_ns (stop:=stop) (kappa:=kappa) (okname:=okname) mu_callee) in B; [|exact (Hok_plus eq_refl)| |].
           -- rewrite B. rewrite (ns_node (K KBin lo hi)) in P1 by reflexivity.
              rewrite (ns_node (K KBin lo hi)) by reflexivity. lia.
           -- intros I. rewrite (proj1 Fl I). apply mu_good; exact Gl.
@@ -396,7 +536,7 @@ Section OpLevel.
         inversion H; subst. exact (DV root (K KBin lo hi) cs s cs1 s' eq_refl eq_refl M G L).
     - (* += *)
       destruct n as [[k lo hi| | | | | |] cs]; try discriminate CK. inversion CK; subst k. clear CK.
-      destruct (plus_enabled c).
+      destruct (plus_enabled c) eqn:PE.
       + destruct (default_visit_with (op_visit c f false) (Node (K KAssign lo hi) cs) s) as [[n1 s1]|] eqn:E; [|discriminate].
         simpl in E. destruct (map_st (op_visit c f false) cs s) as [[cs1 sy]|] eqn:M; [|discriminate].
         inversion E; subst n1 sy. clear E.
@@ -407,7 +547,7 @@ Section OpLevel.
         destruct (assign_transform c (Node (K KAssign lo hi) cs1) (o_p s1)) as [[e'|] p2] eqn:B.
         * cbn [fst snd].
           destruct (o_update_modified (Some gen_ADD_ASSIGN_TAG) (o_with_p p2 s1) L1) as [L2 C2].
-          split; [|exact L2]. unfold cnt in *. rewrite C2, N.mul_succ_r. cbn [o_with_p o_t].
+          split; [|exact L2]. unfold cnt in *. rewrite C2. cbn [o_with_p o_t].
           pose proof (map_st_ident_fix _ _ _ _ _ _ M) as F2.
           pose proof (good_children (K KAssign lo hi) cs eq_refl G) as GC.
           destruct G as [W Z]. apply wf_all_children in W. destruct W as [W _].
@@ -428,18 +568,19 @@ Section OpLevel.
           destruct (op_visit c f false lhs sa) as [[l1 sb]|] eqn:Ml; [|discriminate].
           destruct (op_visit c f false rhs sb) as [[r1 sc]|] eqn:Mr; [|discriminate].
           inversion M; subst o1 l1 r1 sc. clear M.
-          apply (assign_transform_ns (stop:=stop) (kappa:=kappa)) in B.
+          apply (assign_transform_ns (stop:=stop) (kappa:=kappa) (okname:=okname) mu_callee) in B; [|exact (Hok_plus eq_refl)| | | |].
           -- rewrite B. rewrite (ns_node (K KAssign lo hi)) in P1 by reflexivity.
              rewrite (ns_node (K KAssign lo hi)) by reflexivity. lia.
+          -- rewrite peel_of_inner. eapply target_not_ns_member; [exact W | exact (proj2 Gl) | exact Ml].
           -- reflexivity.
           -- intros I. rewrite (proj1 Fr I). apply mu_good; exact Gr.
-          -- intros lhs' hoisted p0 Hh. eapply hoist_target_clean; [exact W | apply mu_good; exact Gl | exact Ml | exact Hh].
+          -- intros lhs' hoisted p0 Hh. eapply hoist_target_clean; [exact W | exact (proj2 Gl) | apply mu_good; exact Gl | exact Ml | exact Hh].
         * cbn [fst snd]. rewrite o_update_notmodified. exact (conj P1 L1).
       + simpl in H. destruct (map_st (op_visit c f root) cs s) as [[cs1 sy]|] eqn:M; [|discriminate].
         inversion H; subst. exact (DV root (K KAssign lo hi) cs s cs1 s' eq_refl eq_refl M G L).
     - (* template *)
       destruct n as [[k lo hi| | | | | |] cs]; try discriminate CK. inversion CK; subst k. clear CK.
-      destruct (tpl_enabled c).
+      destruct (tpl_enabled c) eqn:TE.
       + destruct (tpl_instrumentable (Node (K KTpl lo hi) cs)).
         * destruct (default_visit_with (op_visit c f false) (Node (K KTpl lo hi) cs) s) as [[n1 s1]|] eqn:E; [|discriminate].
           simpl in E. destruct (map_st (op_visit c f false) cs s) as [[cs1 sy]|] eqn:M; [|discriminate].
@@ -450,8 +591,8 @@ Section OpLevel.
           destruct (template_transform c (Node (K KTpl lo hi) cs1) (o_p s1)) as [[e'|] p2] eqn:B.
           -- cbn [fst snd].
              destruct (o_update_modified (Some gen_TPL_TAG) (o_with_p p2 s1) L1) as [L2 C2].
-             split; [|exact L2]. unfold cnt in *. rewrite C2, N.mul_succ_r. cbn [o_with_p o_t].
-             apply (template_transform_ns (stop:=stop) (kappa:=kappa)) in B. rewrite B. lia.
+             split; [|exact L2]. unfold cnt in *. rewrite C2. cbn [o_with_p o_t].
+             apply (template_transform_ns (stop:=stop) (kappa:=kappa) (okname:=okname) mu_callee) in B; [|exact (Hok_tpl eq_refl)]. rewrite B. lia.
           -- cbn [fst snd]. rewrite o_update_notmodified. exact (conj P1 L1).
         * inversion H; subst. split; [rewrite (mu_good _ G); simpl; lia | exact L].
       + simpl in H. destruct (map_st (op_visit c f root) cs s) as [[cs1 sy]|] eqn:M; [|discriminate].
@@ -468,7 +609,7 @@ Section OpLevel.
       destruct (call_transform c (Node (K KCall lo hi) cs1) (o_p s1)) as [[[e' tag]|] p2] eqn:B.
       + cbn [fst snd].
         destruct (o_update_modified (Some tag) (o_with_p p2 s1) L1) as [L2 C2].
-        split; [|exact L2]. unfold cnt in *. rewrite C2, N.mul_succ_r. cbn [o_with_p o_t].
+        split; [|exact L2]. unfold cnt in *. rewrite C2. cbn [o_with_p o_t].
         pose proof (map_st_ident_fix _ _ _ _ _ _ M) as F2.
         pose proof (good_children (K KCall lo hi) cs eq_refl G) as GC.
         destruct G as [W Z]. apply wf_all_children in W. destruct W as [W _].
@@ -485,8 +626,9 @@ Section OpLevel.
         eapply op_visit_leaf in Mc; [|exact Wc]. destruct Mc as [-> ->].
         eapply op_visit_leaf in Mt; [|exact Wt]. destruct Mt as [-> ->].
         inversion GC as [|? ? _ GC2]; subst. inversion GC2 as [|? ? Gk _]; subst.
-        apply (call_transform_ns (stop:=stop) (kappa:=kappa)) in B.
+        apply (call_transform_ns (stop:=stop) (kappa:=kappa) (okname:=okname) mu_callee) in B; [|exact Hok_csi| | |].
         * rewrite B. lia.
+        * eapply visit_not_ns_member; [exact Mk | exact Gk].
         * split; apply ns_leaf; assumption.
         * intros I. rewrite (op_visit_ident_fix _ _ _ _ _ _ _ Mk I). apply mu_good; exact Gk.
       + cbn [fst snd]. exact (conj P1 L1).
@@ -508,7 +650,8 @@ Section OpLevel.
       { unfold plain. destruct n as [[k lo hi| | | | | |] cs]; try reflexivity; try discriminate Cl.
         destruct k; simpl in Cl; try discriminate Cl; try reflexivity. }
       assert (NB : stop_kind n = false).
-      { destruct n as [[k lo hi| | | | | |] cs]; try reflexivity. destruct k; try reflexivity; simpl in Cl; discriminate Cl. }
+      { destruct n as [[k lo hi| | | | | |] cs]; try reflexivity. destruct k; try reflexivity; try (simpl in Cl; discriminate Cl).
+        destruct cs as [|obj rest]; [reflexivity|]. cbn. exact (ns_zero_member _ _ _ _ (proj2 G)). }
       destruct n as [t cs].
       assert (GEN : forall cs1, map_st (op_visit c f root) cs s = Some (cs1, s') -> n' = Node t cs1 -> post n' s s').
       { intros cs1 M ->. exact (DV root t cs s cs1 s' P NB M G L). }
@@ -551,6 +694,8 @@ Theorem op_visit_count_ns c : c_verbosity c <> VOff -> forall fuel root n s n' s
 Proof.
   intros Hv fuel root n s n' s' H G L.
   destruct (op_visit_count no_stop 1 (fun n G => proj2 G)
-              (fun n G => eq_trans (arrow_transform_ns n) (proj2 G)) c Hv _ _ _ _ _ _ H G L) as [A B].
+              (fun n G => eq_trans (arrow_transform_ns n) (proj2 G))
+              (fun _ => True) (fun name span _ => eq_refl) c (or_intror Hv) (fun _ => I) (fun _ => I) (fun _ _ _ => I)
+              _ _ _ _ _ _ H G L) as [A B].
   split; [|exact B]. change (N.of_nat 1) with 1%N in A. rewrite !N.mul_1_l in A. exact A.
 Qed.
